@@ -5,7 +5,7 @@
 
 Imports the package from REPO under the running interpreter, executes every corpus item
 through the public API and writes a JSON transcript: error CLASS NAMES, scores, ratings,
-vectors, JSON items (key order kept for sort=True), extraction results as sorted lists,
+vectors, JSON items (key order kept for sort=True), extraction results in the order returned,
 interactive-builder results, in-process CLI output / exit status.
 """
 from __future__ import print_function, unicode_literals
@@ -86,7 +86,8 @@ def text(t):
         res = parse_cvss_from_text(t)
     except Exception as e:
         return {"err": type(e).__name__}
-    return sorted([type(o).__name__, txt(o.clean_vector()), list(o.scores())] for o in res)
+    # in the order returned, with the string each object was built from
+    return [[type(o).__name__, txt(o.clean_vector()), list(o.scores()), txt(o.as_json()["vectorString"])] for o in res]
 
 
 class Cap(object):
